@@ -250,7 +250,7 @@ Boundary(fr) == LET lo == FMin(fr)  hi == FMax(fr)  a == fr.align  top == P2(fr.
 (* summed separately (TLC integers are 32-bit signed).                       *)
 F(hi, lo) == << <<hi, lo, 0>> >>
 PartLow(v, e) == LET w == e[1] - e[2] + 1  sl == (v \div P2(e[3])) % P2(w) IN
-                 IF e[1] = 31 THEN (sl % P2(w - 1)) * P2(e[2]) ELSE sl * P2(e[2])
+                 IF e[1] = 31 THEN (IF e[2] = 31 THEN 0 ELSE (sl % P2(w - 1)) * P2(e[2])) ELSE sl * P2(e[2])
 PartTop(v, e) == IF e[1] = 31 THEN ((v \div P2(e[3])) \div P2(e[1] - e[2])) % 2 ELSE 0
 RECURSIVE MapLow(_, _, _), MapTop(_, _, _), PartsLow(_, _), PartsTop(_, _)
 MapLow(v, map, k) == IF k > Len(map) THEN 0 ELSE PartLow(v, map[k]) + MapLow(v, map, k + 1)
@@ -591,17 +591,31 @@ Modelled(i0) == Expand(i0).mn \in (Mn32 \ {"ecall", "ebreak", "mret", "csrrw", "
 (* read / write (by the manual: Reads / Writes; by ppci: used_registers /    *)
 (* defined_registers + clobbers).                                            *)
 XRegs == 1..31
+\* straight-line execution of a sequence of decoded instructions (a macro instruction's rendering)
+RECURSIVE ExecSeq(_, _, _)
+ExecSeq(s, is, k) ==
+    IF k > Len(is) THEN [st |-> "ok", pc |-> s.pc, x |-> s.x, mem |-> s.mem]
+    ELSE CHOOSE res \in {IF t.st # "ok" THEN t ELSE ExecSeq(t, is, k + 1) : t \in {Exec(s, is[k])}} : TRUE
+Run(s, is) == ExecSeq(s, is, 1)
+\* registers read before being written / written, over a sequence
+RECURSIVE ReadsSeqR(_, _, _, _), WritesSeqR(_, _, _)
+ReadsSeqR(is, k, rd, wr) == IF k > Len(is) THEN rd
+                            ELSE ReadsSeqR(is, k + 1, rd \cup (Reads(is[k]) \ wr), wr \cup Writes(is[k]))
+ReadsSeq(is) == ReadsSeqR(is, 1, {}, {})
+WritesSeqR(is, k, wr) == IF k > Len(is) THEN wr ELSE WritesSeqR(is, k + 1, wr \cup Writes(is[k]))
+WritesSeq(is) == WritesSeqR(is, 1, {})
+ImplicitSPSeq(is) == UNION {ImplicitSP(is[k]) : k \in 1..Len(is)}
 \* (i) executing changes no register outside declW
-NoUndeclaredWrite(s, i, declW) ==
-    LET t == Exec(s, i) IN t.st = "ok" => \A r \in XRegs \ declW : t.x[r + 1] = s.x[r + 1]
+NoUndeclaredWriteT(s, t, declW) == t.st = "ok" => \A r \in XRegs \ declW : t.x[r + 1] = s.x[r + 1]
+NoUndeclaredWrite(s, is, declW) == NoUndeclaredWriteT(s, Run(s, is), declW)
 \* (ii) for two states agreeing on declR (+ pc, memory; x2 where the instruction names it implicitly),
 \* the declared outputs, the memory effect and the control transfer coincide
-SameOutputs(s1, s2, i, declW) ==
-    LET t1 == Exec(s1, i)  t2 == Exec(s2, i) IN
+SameOutputsT(t1, t2, outs) ==
     (t1.st = "ok" /\ t2.st = "ok") =>
-        /\ \A r \in declW \cap XRegs : t1.x[r + 1] = t2.x[r + 1]
+        /\ \A r \in outs \cap XRegs : t1.x[r + 1] = t2.x[r + 1]
         /\ t1.mem = t2.mem
         /\ t1.pc = t2.pc
+SameOutputs(s1, s2, is, outs) == SameOutputsT(Run(s1, is), Run(s2, is), outs)
 
 \* ---- machine states for the checks (deterministic families indexed by small integers) ----
 Interesting == << <<0, 0, 0, 0>>, <<255, 255, 255, 255>>, <<0, 0, 0, 128>>, <<255, 255, 255, 127>>,
